@@ -370,6 +370,10 @@ class StmtParser:
                 raise SyntaxErr("PRINT USING is not produced by the tool")
             while not c.at_end():
                 if c.peek()[0] == "op" and c.peekv() in (";", ","):
+                    if not items or items[-1][0] == "sep":
+                        # BASIC09's PRINT list is item {separator item} [separator]: a separator needs an item before it
+                        # (the tool writes an empty string literal there)
+                        raise SyntaxErr("PRINT separator without an item before it")
                     items.append(("sep", c.next()[1]))
                 else:
                     if items and items[-1][0] == "e":
